@@ -3,7 +3,7 @@ from __future__ import annotations
 
 import ast
 
-from ..cfg import CFG
+from ..cfg import CFG, assume_truth
 from ..engine import AnalysisError, MechanismMissing, PropertySpec, norm
 from ..pyutil import call_name, calls, const_str, dotted, is_name, walk_local
 from ._listener import listener_symmetry
@@ -231,7 +231,7 @@ def r10_6(ctx, rep):
             for c in ast.walk(fmt):
                 if isinstance(c, ast.Call) and isinstance(c.func, ast.Attribute) and c.func.attr == "name":
                     subj = norm(c)
-            guards = cfg.dominated_by(node.id, lambda x: x.kind == "assume" and x.taken and norm(x.ast) == "%s not in self.derivative" % subj)
+            guards = cfg.dominated_by(node.id, lambda x: assume_truth(x, "%s in self.derivative" % subj) is False)
             from ..pyutil import stmt_list_of
 
             block = stmt_list_of(st) or []
@@ -243,7 +243,7 @@ def r10_6(ctx, rep):
                    "and self.nodes right away (guard=%s, derivative=%s, nodes=%s): otherwise a second der() of the same state makes "
                    "a second, free symbol" % (subj, bool(guards), reg1, reg2))
             # the other branch returns the registered symbol
-            t = [x for x in cfg.nodes if x.kind == "assume" and not x.taken and norm(x.ast) == "%s not in self.derivative" % subj]
+            t = [x for x in cfg.nodes if assume_truth(x, "%s in self.derivative" % subj) is True]
             ok = False
             for a in t:
                 for s in cfg.reachable(a.id):
